@@ -6,6 +6,7 @@ print the C04 view (contents, ledger counters, lifecycle event log) or the C05 v
 stable/new/moved flag per element) depending on their first argument."""
 import itertools
 import re
+from pathlib import Path
 import common as C
 
 PROPERTIES = ["C04", "C05"]
@@ -18,7 +19,10 @@ _COMMON_NOTE = ("Trusted: Lean kernel + the three standard axioms; the hand tran
                 "the compiled model; exact comparison of contents, ledger counters and of the COMPLETE lifecycle event log "
                 "construct/copy/assign/destroy/alloc/free with canonical slot names (block serial, slot index, member), so free-list order, "
                 "block layout, Array reallocation and shifting, order of member construction/destruction are all compared); the harness element "
-                "type (Tracked/Fixed) and allocator ledger. Modelled, not verified: AVL rebalancing and hash chains are abstracted "
+                "type (Tracked/Fixed) and allocator ledger. The number of items per block of each node container is not a constant of the model: "
+                "tools/areas/life.py translate reads it from the sources (allocation size and free-list threading loop must agree) into "
+                "lean/Nstd/Generated/LifeConst.lean, the driver uses it, every theorem holds for every table N >= 1; the harness derives slot names from the "
+                "observed allocation. Modelled, not verified: AVL rebalancing and hash chains are abstracted "
                 "(the model keeps iteration order, slots, free lists, blocks; lookups are by payload) - their behaviour is the subject of C01/C02; "
                 "comparisons / hashing of elements are not events of the log (the harness still counts any use of a destroyed object). "
                 "MultiMap::insert(hint) is driven only with keys not yet present (inside a run of equal keys the position depends on the tree shape). Not driven: List::sort (swaps "
@@ -70,6 +74,72 @@ MANIFEST = {
 }
 
 OPEN = {"C04": [], "C05": []}
+
+# ---- translator: items per block of the node containers -> lean/Nstd/Generated/LifeConst.lean ---------------------------
+GEN_OUT = C.LEAN / "Nstd" / "Generated" / "LifeConst.lean"
+GEN_HEADERS = [("List", "listItems"), ("Map", "mapItems"), ("MultiMap", "multiMapItems"), ("HashMap", "hashMapItems"),
+               ("HashSet", "hashSetItems"), ("PoolList", "poolListItems"), ("PoolMap", "poolMapItems")]
+_SLOT = r"(?:sizeof\(Item\)|slotSize|\(\s*sizeof\(Item\)\s*\+\s*sizeof\(T\)\s*\))"
+
+
+def _strip_cxx(src):
+    src = re.sub(r"/\*.*?\*/", " ", src, flags=re.S)
+    return re.sub(r"//[^\n]*", "", src)
+
+
+def _const(src, tok):
+    """value of a literal or of an enum / constant defined in the same header"""
+    if tok.isdigit():
+        return int(tok)
+    m = re.findall(r"\b" + re.escape(tok) + r"\s*=\s*(\d+)\b", src)
+    return int(m[0]) if len(m) == 1 else None
+
+
+def translate(repo=None):
+    """(ok, message).  For each node container: the number N of items allocated at once, read from BOTH places that must agree -
+    the allocation `new char[sizeof(ItemBlock) + <item size> * N]` and the bound of the loop that threads the new items into
+    the free list (`end = i + N`, `end = item + N`, `(char*)i + N * <item size>`); literal or enum.  Written as Lean
+    definitions that the model driver uses (`Driver.genPer`); the theorems hold for every table N >= 1.  Refuses (broken tie)
+    when a shape is not found, the two places disagree, or N = 0.  The file is rewritten only when its content changes."""
+    repo = Path(repo or C.REPO)
+    vals, msgs = [], []
+    for hdr, name in GEN_HEADERS:
+        try:
+            src = _strip_cxx((repo / "include/nstd" / (hdr + ".hpp")).read_text())
+        except OSError as e:
+            return False, f"cannot read {hdr}.hpp: {e}"
+        al = re.findall(r"new\s+char\s*\[\s*sizeof\(ItemBlock\)\s*\+\s*" + _SLOT + r"\s*\*\s*(\w+)\s*\]", src)
+        lo = re.findall(r"\*\s*end\s*=\s*(?:i|item)\s*\+\s*(\w+)\s*;", src)
+        lo += re.findall(r"\(char\*\)\s*i\s*\+\s*(\w+)\s*\*\s*" + _SLOT, src)
+        if len(al) != 1 or len(lo) != 1:
+            return False, f"{hdr}.hpp: block allocation {al} / free-list threading loop {lo} not found (or not unique)"
+        a, b = _const(src, al[0]), _const(src, lo[0])
+        if a is None or b is None or a != b or a < 1:
+            return False, f"{hdr}.hpp: items per block in the allocation ({al[0]} = {a}) and in the threading loop ({lo[0]} = {b}) disagree or are not positive"
+        vals.append((name, hdr, a))
+        msgs.append(f"{hdr}={a}")
+    text = ("/- generated by tools/areas/life.py (translate) from include/nstd/{List,Map,MultiMap,HashMap,HashSet,PoolList,PoolMap}.hpp - do not edit -/\n"
+            "namespace Nstd.Generated.Life\n\n" +
+            "".join(f"/-- items per block of {hdr}: allocation size and free-list threading loop agree -/\ndef {name} : Nat := {v}\n\n" for name, hdr, v in vals) +
+            "end Nstd.Generated.Life\n")
+    GEN_OUT.parent.mkdir(parents=True, exist_ok=True)
+    if not GEN_OUT.exists() or GEN_OUT.read_text() != text:
+        GEN_OUT.write_text(text)
+    return True, "items per block: " + " ".join(msgs)
+
+
+def gen(ctx):
+    ok, msg = translate()
+    if ctx is not None:
+        ctx.cov.setdefault("translated", msg)
+    return ok, msg
+
+
+def setup():
+    ok, msg = translate()
+    if not ok:
+        print("life translate:", msg)
+
 
 KINDS = "ALMUHSPQ"
 FIELDS = {"A": 1, "L": 1, "M": 2, "U": 2, "H": 2, "S": 1, "P": 1, "Q": 2}
@@ -398,8 +468,8 @@ def make_reference(c05):
             return False
         if ref.startswith("end") and cnt["b"] != "0":
             return False
-        if len(pi) > 2 and re.search(r"[!?]", pi[2]):
-            return False
+        if len(pi) > 2 and "!" in pi[2]:          # misuse marks of the ledger (dangling source, double free, free with live objects);
+            return False                          # slot names themselves (block size, slot order) are no business of the reference
         return True
 
     reference.eq = ref_eq
@@ -651,7 +721,7 @@ def check(ctx):
         "object locations are canonicalised as (block serial, slot index, field) / sentinel / caller temporary; raw addresses are never compared",
         "AVL shape and hash chains are not part of the model (iteration order and lookup by payload are); MultiMap::remove(key) removes the first of the equal keys (MultiMap::find as repaired by area Avl, fixes/avl); MultiMap::insert(hint) only with a fresh key; List::sort is not driven",
     ]
-    proof_ok = C.proof_stage(ctx, PROPS_BY[ctx.prop], [DRIVER], leanchecker=(ctx.tier == "thorough"))
+    proof_ok = C.proof_stage(ctx, PROPS_BY[ctx.prop], [DRIVER], gen=gen, leanchecker=(ctx.tier == "thorough"))
     ctx.cov["open_statements"] = list(OPEN[ctx.prop])
     harness = C.build_harness(ctx, "life_" + ctx.prop, sources(), extra_flags=["-Wno-invalid-offsetof"])
     if harness is None or not C.driver_path(DRIVER).exists():
@@ -684,6 +754,7 @@ def check(ctx):
 def replay(ctx, path):
     h = C.parse_replay(path)
     harness = C.build_harness(ctx, "life_" + ctx.prop, sources(), extra_flags=["-Wno-invalid-offsetof"])
+    translate()
     C.lake_build([DRIVER])
     ref = make_reference(ctx.prop == "C05")
     args = [ctx.prop]
